@@ -423,7 +423,41 @@ def c06_8(ctx):
     ctx.check(inv == {'LOCAL': '.', 'FILE': '_', 'GLOBAL': ''}, 'kinds:kind->prefix', lp.site(), "label_prefix is the inverse table", str(inv))
 
 
-RULES = [c06_1, c06_2, c06_3, c06_4, c06_5, c06_6, c06_8]
+def c06_9(ctx):
+    ctx.rule('C06.9', 'the scope of a line is what the file loop assigned: accessors are identities, nobody else writes it', 5)
+    LO = 'bespokeasm.assembler.line_object.LineObject'
+    setter = ctx.repo.func(LO + '.label_scope#setter')
+    p = setter.call_params[0].arg
+    body = [s_ for s_ in setter.node.body if not (isinstance(s_, ast.Expr) and isinstance(s_.value, ast.Constant))]
+    ok = len(body) == 1 and isinstance(body[0], ast.Assign) and unparse(body[0]) == f'self._label_scope = {p}'
+    ctx.check(ok, 'accessor:scope-setter-identity', setter.site(), 'assigning a line\'s scope stores exactly the given scope, unconditionally',
+              '; '.join(unparse(b)[:70] for b in body))
+    getter = ctx.repo.func(LO + '.label_scope')
+    rr = returns(getter)
+    ctx.check(len(rr) == 1 and unparse(rr[0].value) == 'self._label_scope', 'accessor:scope-getter-identity', getter.site(), 'reading a line\'s scope returns what was stored', '; '.join(unparse(r) for r in rr))
+    lo = ctx.repo.cls(LO)
+    for f in lo.implementations('label_scope') + lo.setter_implementations('label_scope'):
+        ctx.check(f.cls.qualname == LO, f'accessor:scope-override:{ctx.short(f)}', f.site(), 'no subclass overrides the scope accessors', ctx.short(f))
+    allowed_setter_callers = {LOAD}
+    for e in ctx.cg.callers(setter):
+        ctx.check(CallGraph.key(e.caller) in allowed_setter_callers, f'who:assigns-scope:{ctx.short(e.caller)}', e.caller.site(e.node),
+                  'only the file loop assigns a line\'s scope', f'{ctx.short(e.caller)} assigns {unparse(e.node)}')
+    for fn, node in attr_writers(ctx, '_label_scope'):
+        ok = fn.qualname in (LO + '.__init__', LO + '.label_scope') or (fn.qualname == AF + '.__init__')
+        ctx.check(ok, f'who:writes-_label_scope:{ctx.short(fn)}', fn.site(node), '_label_scope is written only by the constructor and the setter', ctx.short(fn))
+    init = ctx.repo.func(LO + '.__init__')
+    st = self_attr_stores(init.node, '_label_scope')
+    ctx.check(len(st) == 1 and unparse(st[0][2]) == 'None', 'accessor:scope-starts-none', init.site(), 'a new line has no scope until the file loop assigns one', '; '.join(unparse(x[0]) for x in st))
+    ic = ctx.repo.func(LABEL + '.is_constant')
+    rr = returns(ic)
+    ctx.check(len(rr) == 1 and unparse(rr[0].value) in ('self._value is not None', 'not self._value is None'), 'label:is-constant', ic.site(),
+              'a label line is a constant iff a value was given (a constant 0 neither opens a local region nor is bound as an address)', '; '.join(unparse(r) for r in rr))
+    gl = ctx.repo.func(LABEL + '.get_label')
+    rr = returns(gl)
+    ctx.check(len(rr) == 1 and unparse(rr[0].value) == 'self._label', 'label:name', gl.site(), 'get_label returns the parsed label name', '; '.join(unparse(r) for r in rr))
+
+
+RULES = [c06_1, c06_2, c06_3, c06_4, c06_5, c06_6, c06_8, c06_9]
 
 _L = 'assembler/label_scope/__init__.py'
 _A = 'assembler/assembly_file.py'
@@ -460,6 +494,12 @@ MUTANTS = [
     V('c06-same-zone-memzone-plain', 'assembler/line_object/directive_line/factory.py', "            name_str = line_match.group(1)\n            return SetMemoryZoneLine(", "            name_str = line_match.group(1)\n            if name_str == current_memzone.name:\n                return LineObject(line_id, line_match.group(0), comment, current_memzone)\n            return SetMemoryZoneLine(", 'C06.4'),
     V('c06-too-low-goes-up', _L, "            sys.exit(f\"ERROR: {line_id} - Label '{label}' is to low of scope for available scopes at this line.\")", "            self._labels[label] = LabelScope.LabelInfo(label, value, line_id)", 'C06.3'),
     V('c06-line-scope-file', _A, "                                lobj.label_scope = current_scope\n", "                                lobj.label_scope = self.label_scope if isinstance(lobj, LabelLine) and lobj.is_constant else current_scope\n", 'C06.4'),
+]
+MUTANTS += [
+    V('c06-scope-setter-once', 'assembler/line_object/__init__.py', "    def label_scope(self, value):\n        self._label_scope = value", "    def label_scope(self, value):\n        if self._label_scope is None:\n            self._label_scope = value", 'C06.9'),
+    V('c06-scope-set-in-factory', 'assembler/line_object/factory.py', "                if line_obj is not None:\n                    line_obj_list.append(line_obj)\n                    instruction_str = instruction_str.replace(line_obj.instruction, '', 1).strip()\n                    continue\n\n                # if we are here", "                if line_obj is not None:\n                    line_obj.label_scope = label_scope\n                    line_obj_list.append(line_obj)\n                    instruction_str = instruction_str.replace(line_obj.instruction, '', 1).strip()\n                    continue\n\n                # if we are here", 'C06.9'),
+    V('c06-zero-constant-region', _LL, "        return self._value is not None", "        return bool(self._value)", 'C06.9'),
+    V('c06-keyword-lowered', _L, "        if base_label in ASSEMBLER_KEYWORD_SET:\n", "        if base_label.lower() in ASSEMBLER_KEYWORD_SET:\n", 'C06.3'),
 ]
 TWINS = [
     V('c06-t-lookup-flip', _L, "        if label in self._labels:\n            return self._labels[label].value\n        elif self.parent is not None:", "        if label in self._labels:\n            return self._labels[label].value\n        elif self._parent is not None:"),
